@@ -451,7 +451,7 @@ Proof.
                 ltac:(lia)) as ([segs1 ln1] & E).
     rewrite Hz in E. rewrite E. cbn [bind].
     destruct (build_upper_step c ldk (sentinel c) r rl segs1 ln1 Hb ltac:(lia) He0 Hok ltac:(lia) ltac:(lia)
-                (level_float_ok_trivial _ _ _ _) E) as (r' & Hok' & Hlink & Es1 & Eln1).
+                (level_float_ok_cap_trivial _ _ _ _) E) as (r' & Hok' & Hlink & Es1 & Eln1).
     assert (Hshr : ln1 < lr_ln r).
     { rewrite <- Hz in E. rewrite <- Hz.
       apply (build_level_shrinks c _ ldk _ segs1 ln1 E); [exact He1 | exact Hpar | exact Hne' | exact Hss | exact Hw' | lia | lia]. }
@@ -481,8 +481,8 @@ Proof.
   destruct (build_level_desc _ _ _ _ _ _ _ E2 ltac:(lia) Hne Hs Hw ltac:(lia))
     as (css & fed & cnt & g & new & T & M1 & M2 & Es & Hcat & F1 & F2 & He & Htail).
   cbn [app] in Es, Htail.
-  destruct (level_float_ok_trivial c (c_eps c) data (last_z data) css fed cnt new M1 M2) as [Fev _].
-  pose proof (Lv_of_Forall2 c (c_eps c) (EvalOK c (sentinel c)) css g new F1 F2 Fev) as HL.
+  destruct (level_float_ok_cap_trivial c (c_eps c) data (last_z data) css fed cnt new M1 M2) as [Fev _].
+  pose proof (Lv_of_Forall2 c (c_eps c) (EvalOKc (zlen data + c_eps c) c (sentinel c)) css g new F1 F2 Fev) as HL.
   set (r0 := mkL data (c_eps c) css g new T ln).
   assert (Hok0 : lrec_ok c (last_z data) (sentinel c) r0).
   { unfold lrec_ok, r0. cbn [lr_keys lr_eps lr_css lr_g lr_new lr_T lr_ln]. do 6 (split; [assumption|]). exact Htail. }
@@ -576,7 +576,7 @@ Proof.
     pose proof (build_level_count c _ ldk _ segs1 ln1 E He1 Hpar Hne' Hss Hw' ltac:(lia)) as Hcnt.
     rewrite Hz in E, Hshr, Hcnt. rewrite E. cbn [bind].
     destruct (build_upper_step c ldk (sentinel c) r rl segs1 ln1 Hb ltac:(lia) He0 Hok ltac:(lia) ltac:(lia)
-                (level_float_ok_trivial _ _ _ _) E) as (r' & Hok' & Hlink & Es1 & Eln1).
+                (level_float_ok_cap_trivial _ _ _ _) E) as (r' & Hok' & Hlink & Es1 & Eln1).
     subst ln1. rewrite Es1.
     assert (Hch' : chainR c ldk (sentinel c) (r' :: r :: rl)) by (cbn [chainR]; cbn [chainR] in Hch; tauto).
     replace (offs_of (r :: rl) ++ [zlen (below (r' :: r :: rl))]) with (offs_of (r' :: r :: rl)) by reflexivity.
@@ -607,8 +607,8 @@ Proof.
   destruct (build_level_desc _ _ _ _ _ _ _ E2 ltac:(lia) Hne Hs Hw ltac:(lia))
     as (css & fed & cnt & g & new & T & M1 & M2 & Es & Hcat & F1 & F2 & He & Htail).
   cbn [app] in Es, Htail.
-  destruct (level_float_ok_trivial c (c_eps c) data (last_z data) css fed cnt new M1 M2) as [Fev _].
-  pose proof (Lv_of_Forall2 c (c_eps c) (EvalOK c (sentinel c)) css g new F1 F2 Fev) as HL.
+  destruct (level_float_ok_cap_trivial c (c_eps c) data (last_z data) css fed cnt new M1 M2) as [Fev _].
+  pose proof (Lv_of_Forall2 c (c_eps c) (EvalOKc (zlen data + c_eps c) c (sentinel c)) css g new F1 F2 Fev) as HL.
   set (r0 := mkL data (c_eps c) css g new T ln).
   assert (Hok0 : lrec_ok c (last_z data) (sentinel c) r0).
   { unfold lrec_ok, r0. cbn [lr_keys lr_eps lr_css lr_g lr_new lr_T lr_ln]. do 6 (split; [assumption|]). exact Htail. }
@@ -647,14 +647,14 @@ Theorem build_total c data :
   idx_ok c -> cfg_small c -> data_ok c data -> zlen data <= 2 ^ 30 ->
   exists ix, build c data = Ok ix /\ zlen (ix_segments ix) < 2 ^ 32.
 Proof.
-  intros [Hb He _ Hr0 _ Hp _] [Hp20 He31 Hr31] [Hne Hs Hkt Hl _] Hn.
+  intros [Hb He _ Hr0 _ Hp] [Hp20 He31 Hr31] [Hne Hs Hkt Hl _] Hn.
   destruct (build_total_sz c data Hb ltac:(lia) ltac:(lia) Hr0 Hne Hs Hkt Hl ltac:(lia) ltac:(lia)) as (ix & E & Hsz).
   exists ix. split; [exact E|]. lia.
 Qed.
 
 (* the index contract with no hypothesis on the built index: build succeeds and search is correct *)
 Theorem build_search_contract c data :
-  idx_ok c -> cfg_small c -> float_ok_all c -> data_ok c data -> zlen data <= 2 ^ 30 ->
+  idx_ok c -> cfg_small c -> float_ok_valid c -> data_ok c data -> zlen data <= 2 ^ 30 ->
   exists ix, build c data = Ok ix /\
     forall q, q < sentinel c ->
       exists a, search c ix q = Ok a /\
@@ -662,7 +662,7 @@ Theorem build_search_contract c data :
         (In q data -> lb data q < a_hi a) /\ a_hi a - a_lo a <= 2 * c_eps c + 2.
 Proof.
   intros Hc Hsm Hf Hd Hn. destruct (build_total c data Hc Hsm Hd Hn) as (ix & E & Hs32).
-  exists ix. split; [exact E|]. intros q Hq. exact (search_contract c data ix q Hc Hf Hd E Hs32 Hq).
+  exists ix. split; [exact E|]. intros q Hq. exact (search_contract_valid c data ix q Hc Hf Hd E Hs32 Hq).
 Qed.
 
 (* the size of the segment array of any successfully built index *)
@@ -676,14 +676,14 @@ Qed.
 
 (* search_contract without any hypothesis on the built index *)
 Theorem search_contract_small c data ix q :
-  idx_ok c -> cfg_small c -> float_ok_all c -> data_ok c data -> zlen data <= 2 ^ 30 ->
+  idx_ok c -> cfg_small c -> float_ok_valid c -> data_ok c data -> zlen data <= 2 ^ 30 ->
   build c data = Ok ix -> q < sentinel c ->
   exists a, search c ix q = Ok a /\
     0 <= a_lo a <= lb data q /\ lb data q <= a_hi a <= zlen data /\
     (In q data -> lb data q < a_hi a) /\ a_hi a - a_lo a <= 2 * c_eps c + 2.
 Proof.
   intros Hc Hsm Hf Hd Hn E Hq.
-  exact (search_contract c data ix q Hc Hf Hd E (build_segs32 c data ix Hc Hsm Hd Hn E) Hq).
+  exact (search_contract_valid c data ix q Hc Hf Hd E (build_segs32 c data ix Hc Hsm Hd Hn E) Hq).
 Qed.
 
 Print Assumptions chunk_total.
